@@ -678,7 +678,7 @@ def main():
     # dof and maps to its number; slot cover (used by C16); frame
     from vlib import vrun as VR
 
-    for blk in ("_p1_selection_block", "_p1_numbering", "_p1_final_block", "_rwg_selection_block", "_rwg_step_block", "_rwg_final_block"):
+    for blk in ("_boundary_vertices", "_p1_selection_block", "_p1_numbering", "_p1_final_block", "_rwg_selection_block", "_rwg_step_block", "_rwg_final_block"):
         VR.add_block(run, "contracts.dofmap_blocks", blk)
     for gname in ("screen2", "octa", "two_tets_face") + (("screen3", "cube12") if thorough else ()):
         run.add("_p1_selection_block::native[%s]" % gname, "bounded", ob_p1_selection_native, gname)
